@@ -61,6 +61,16 @@ CHECKS = {
             'Every spline of the stated lattice is constructed three ways and probed at the knots, their adjacent floats and an interior lattice; the continuity conditions determine the coefficients uniquely, so a wrong matrix row, swapped argument, shift error or comparison slip violates one of them.',
             'Trusted: numpy cond/solve for the conditioning estimate; systems with cond > 1e10 or log-space uncertainty > 1e-7 are outside the well-conditioned range of the statement and are skipped (counted).',
             'DESIGN.md 4/C10'),
+    'C11': (E1, 'exploration',
+            'exhaustive evaluation of decimal (step, count) lattices (steps 1e-4..0.5, up to 19999 steps; 2.4M pairs) for every two-of-three combination on both grids through ConfigParser(..).tabulation, the complete rejection and default tables, and end-to-end row counting / spacing for all 11 targets with the independent readers',
+            'Every lattice point is evaluated (no sampling); cutoff = exact decimal k*step must give k+1 rows ending at cutoff; every target is written on float-awkward grids and a (cutoff, nr) lattice and its rows are counted and spaced by independent readers.',
+            'Trusted: decimal arithmetic for k*step; quick tier uses the internal helper for the full lattice and cross-checks it against the public route on a sub-lattice (see evidence assumptions).',
+            'DESIGN.md 4/C11'),
+    'C18': (E1, 'exploration',
+            'exhaustive enumeration of table-form data sets (all 4..7-point subsets of an uneven lattice x 4 shapes x 4 representations, each after a differently filled same-named table), TableReader files (all row orders x 8 formatting variants incl. no final newline / CRLF) and plot ranges x steps, on the real code',
+            'Pass-through at every data point, zero (value and derivatives) outside incl. adjacent floats, xy == x/y bit-identically, derivatives against Richardson differences of the interpolant; TableReader exact data points, linear interpolant, zero outside; plot row count, abscissae and ordinates.',
+            'Trusted: scipy builds the documented cubic spline; Richardson extrapolation error model.',
+            'DESIGN.md 4/C18'),
 }
 
 NOT_YET = 'check not built yet in this revision of /verif (bounded exhaustive exploration applies; see DESIGN.md section 4)'
